@@ -96,6 +96,33 @@ fn run_program(prog: &str) -> Result<Vec<Reg>, Fail> {
                     .collect::<Result<_, _>>()?;
                 Reg::P(pts.iter().sum::<RistrettoPoint>())
             }
+            'K' | 'J' | 'W' | 'Y' => {
+                want(3)?;
+                let (a, b) = (reg_pt(&regs, args[0])?, reg_pt(&regs, args[1])?);
+                let c = subtle::Choice::from(int_in(args[2], 0, 1)? as u8);
+                use subtle::ConditionallySelectable;
+                match opc {
+                    'K' => Reg::P(RistrettoPoint::conditional_select(&a, &b, c)),
+                    'J' => {
+                        let mut p = a;
+                        p.conditional_assign(&b, c);
+                        Reg::P(p)
+                    }
+                    _ => {
+                        let (mut p, mut q) = (a, b);
+                        RistrettoPoint::conditional_swap(&mut p, &mut q, c);
+                        Reg::P(if opc == 'W' { p } else { q })
+                    }
+                }
+            }
+            'L' => {
+                want(2)?;
+                let mut p = reg_pt(&regs, args[0])?;
+                let c = subtle::Choice::from(int_in(args[1], 0, 1)? as u8);
+                use subtle::ConditionallyNegatable;
+                p.conditional_negate(c);
+                Reg::P(p)
+            }
             'E' => {
                 want(2)?;
                 Reg::B(reg_pt(&regs, args[0])? == reg_pt(&regs, args[1])?)
